@@ -120,7 +120,7 @@ def run(ck):
                          {"class": None, "case": l[:3000], "implementation": go.get(cid), "expected": "0", "driver_flags": ck.impl_flags, "replay": "echo 'x <case>' | harness/drv.cpp built with the flags above against /repo"})
             break
     ck.cov.setdefault("case_classes", {})["compare/stream-grew-after-size-was-measured"] = len(gl)
-    parallel_purity(ck, exe, ["hmac %d %d %s %s" % (HBUF, i % 3, rnd_bytes(r, 16).hex(), wv.hexs(rnd_bytes(r, r.choice([1, 20, 55, 64, 100, 300])))) for i in range(24)],
+    parallel_purity(ck, exe, ["hmac %d %d %s %s" % (HBUF, i % 3, rnd_bytes(r, 16).hex(), wv.hexs(rnd_bytes(r, r.choice([1, 20, 55, 64, 100, 300, 64 * HBUF * 3 + 70, 64 * HBUF * 6 + 1])))) for i in range(24)],
                     "HMAC tags under different keys", iters=150, env=small_env(ck))
     if ck.tier == "thorough":
         production_scale(ck)     # 40 MiB and > 4 GiB with the production constants (props/filegen.py)
